@@ -61,6 +61,8 @@ func dispatch(prop, tier string, seed int64) int {
 		return netx.RunC14(tier, seed)
 	case "C20":
 		return conc.RunC20(tier, seed)
+	case "C04":
+		return conc.RunC04(tier, seed)
 	case "C15":
 		return netx.RunC15(tier, seed, os.Getenv("VERIF_RACE_PASS") != "")
 	case "C13":
